@@ -1,5 +1,6 @@
 import Gms.Driver.Proto
 import Gms.Model.StoreStr
+import Gms.Model.StoreBin
 open Gms.Proto Gms.Num Gms.Conv Gms.Store
 
 def val? : Sexp → Option Val
@@ -107,8 +108,48 @@ def sinsCase (mode : String) (it : ITy) (bs : List UInt8) : String :=
         else "-"
       answer impl (if ignore then "nearest-with-warning-or-exact" else "exact-or-rejected") region
 
+/-- `Type.Convert` of a binary string (`[]byte`) + re-conversion of the result -/
+def convBinCase (t : Ty) (bs : List UInt8) : String :=
+  if !binModelled t then answer "type-outside-the-binary-string-model"
+  else
+    let r := convertB t bs
+    let again := r.err ≠ .fatal ∧ r.val ≠ .null
+    let r2s := if again then cresStr (convert t (inject t r.val)) else "-"
+    let impl := cresStr r ++ " | " ++ r2s
+    let idemOK := !again || (convert t (inject t r.val) == ⟨r.val, .inRange, .none⟩)
+    match acceptableConvertB t bs r with
+    | none => if idemOK then answer impl "?" else answer impl "not-idempotent"
+    | some true => if idemOK then answer impl else answer impl "not-idempotent"
+    | some false => answer impl "exact-or-reported-nearest"
+
+/-- `INSERT [IGNORE]` of a binary string into an integer / BIT column -/
+def binsCase (mode : String) (t : Ty) (bs : List UInt8) : String :=
+  if !binModelled t then answer "type-outside-the-binary-string-model"
+  else
+    let ignore := mode == "ignore"
+    let o := insertBin ignore t bs
+    let impl := outcomeStr t o
+    match acceptableBinOutcome ignore t bs o with
+    | some false =>
+      let region :=
+        if ignore && decide (binary_out_of_range_stored_as_zero t bs) then "binary_out_of_range_stored_as_zero"
+        else if ignore && decide (ignore_stores_zero_not_nearest t (.s bs)) && (match t with | .bit _ => true | _ => false) then
+          "ignore_stores_zero_not_nearest"
+        else "-"
+      answer impl (if ignore then "nearest-with-warning-or-exact" else "exact-or-rejected") region
+    | none => answer impl "?"
+    | some true => answer impl
+
 def handle (p : List Sexp) : String :=
   match p with
+  | [.list [.atom "conv", t, .list [.atom "b", b]]] =>
+    match ty? t, b.bytes? with
+    | some t, some bs => convBinCase t bs
+    | _, _ => answer "bad-case"
+  | [.list [.atom "bins", .atom mode, .atom _, t, .list [.atom "b", b]]] =>
+    match ty? t, b.bytes? with
+    | some t, some bs => binsCase mode t bs
+    | _, _ => answer "bad-case"
   | [.list [.atom "conv", t, v]] =>
     match ty? t, val? v with
     | some t, some v => convCase t v
